@@ -13,14 +13,15 @@ VARIABLES l, mon
 tvars == <<l, mon>>
 
 Feed(M, r) ==
-  CASE r.e = "reset"   -> MonInit(r.maxc)
+  CASE r.e = "reset"   -> WithC04(MonInit(r.maxc), r.c04)
     [] r.e = "issue"   -> MonIssue(M, r.o, r.n, r.to, r.h)
     [] r.e = "issued"  -> MonIssued(M, r.o, r.n, r.rid, r.ok)
     [] r.e = "cancel"  -> MonCancel(M, r.o, r.rid)
     [] r.e = "resp"    -> MonResp(M, r.o, r.rid, r.h)
     [] r.e = "fail"    -> MonFailEv(M, r.o, r.rid)
     [] r.e = "recv"    -> MonRecv(M, r.o, r.from, r.irid, r.n, r.h)
-    [] r.e = "answer"  -> MonAnswer(M, r.o, r.irid, r.h)
+    [] r.e = "answer"  -> MonAnswerFb(M, r.o, r.irid, r.h, r.fb)
+    [] r.e = "sent"    -> MonSent(M, r.o, r.irid, r.ok)
     [] r.e = "reject"  -> MonReject(M, r.o, r.irid)
     [] r.e = "kill"    -> MonKill(M, r.o)
     [] r.e = "quiesce" -> MonQuiesce(M)
